@@ -26,6 +26,10 @@ pub fn dump_request(req: &Request) -> Vec<String> {
     let mut out = Vec::new();
     out.push(format!("M {}", req.method.as_str()));
     out.push(format!("P {}", hex(req.path.str().as_bytes())));
+    // the address the request is attributed to. No reference value: an implementation may take it from the connection or
+    // from what a proxy reports; it is part of the dump so that the comparisons between two deliveries of the same
+    // request (C05: as k-th request and alone; C06: any segmentation) cover it
+    out.push(format!("I {}", req.ip));
     // every public way to look at the path must be usable on a request that reached a fang: `Deref<Target = str>` /
     // `AsRef<str>` (what `req.path.starts_with(..)` goes through), `Display`, `Debug`, `params()`
     let _: usize = (&*req.path).len() + AsRef::<str>::as_ref(&req.path).len() + format!("{} {:?}", req.path, req.path).len() + req.path.params().count();
